@@ -24,6 +24,18 @@ type nativeCase struct {
 	Expect  string       `json:"expect,omitempty"`
 }
 
+func firstLine(s string) string {
+	for _, l := range strings.Split(s, "\n") {
+		if strings.Contains(l, "fatal error") || strings.Contains(l, "stack overflow") {
+			return strings.TrimSpace(l)
+		}
+	}
+	if i := strings.IndexByte(s, '\n'); i >= 0 {
+		return s[:i]
+	}
+	return s
+}
+
 func hasLayoutDraw(ds []replayDraw) bool {
 	for _, d := range ds {
 		if strings.HasPrefix(d.Name, "layout:") {
@@ -156,6 +168,15 @@ func (nr *nativeRunner) run(rel string, ld *loaded, cases []nativeCase) ([]nativ
 	out, runErr := cmd.CombinedOutput()
 	rb, err := os.ReadFile(outp)
 	if err != nil {
+		if runErr != nil && (strings.Contains(string(out), "stack overflow") || strings.Contains(string(out), "fatal error")) {
+			// the process died (e.g. unbounded recursion): every case of
+			// this batch is reported as crashed
+			res := make([]nativeResult, len(cases))
+			for i := range res {
+				res[i] = nativeResult{Status: "crashed", Msg: firstLine(string(out))}
+			}
+			return res, nil
+		}
 		return nil, fmt.Errorf("native replay produced no results: %v\n%s", runErr, out)
 	}
 	var res []nativeResult
@@ -284,7 +305,7 @@ func (r *report) finish(doReplay bool) int {
 					if err == nil && len(one) == 1 {
 						nat = one[0]
 					}
-					ok = nat.Status == "timeout"
+					ok = nat.Status == "timeout" || nat.Status == "crashed"
 				case v.Label == "no-panic":
 					ok = nat.Status == "panic"
 				case strings.HasPrefix(v.Label, "alloc-bounded@"):
@@ -545,7 +566,7 @@ func cmdReplay(args []string) int {
 		return 2
 	}
 	fmt.Printf("replay %s %s: native status=%s label=%q msg=%q obs=%v\n", rf.Property, rf.Harness, res[0].Status, res[0].Label, res[0].Msg, res[0].Obs)
-	if res[0].Status == "assert" || res[0].Status == "panic" || (rf.Label == "terminates" && res[0].Status == "timeout") {
+	if res[0].Status == "assert" || res[0].Status == "panic" || (rf.Label == "terminates" && (res[0].Status == "timeout" || res[0].Status == "crashed")) {
 		fmt.Printf("VIOLATION property=%s replay=%s\n", rf.Property, *file)
 		return 1
 	}
